@@ -14,6 +14,8 @@ cp $out/meta.md $dest/agent_meta.md 2>/dev/null
 fi
 feat=""
 grep -qiE "features? (core|json)|--features" $out/meta.md 2>/dev/null && feat="--features core,json"
+grep -qE -- "--features ignore_case (--test|.*demo)|[Dd]emo needs:? .--features ignore_case" $out/meta.md 2>/dev/null && feat="--features ignore_case"
+grep -qE -- "[Dd]emo needs:? .--features sync" $out/meta.md 2>/dev/null && feat="--features sync"
 if [ "${SEED_CHECKS_ONLY:-0}" = "1" ] && [ -f $dest/meta.json ]; then
   suite=$(python3 -c "import json;print(json.load(open('$dest/meta.json'))['suite_with_change'])")
   with=$(python3 -c "import json;print(json.load(open('$dest/meta.json'))['demo_with_change'])")
